@@ -17,7 +17,7 @@
 # -----------------------------------------------------------------------------
 """High level common date-time point and duration utilities."""
 
-from datetime import datetime
+from datetime import datetime, timedelta, timezone
 import os
 import time
 
@@ -260,8 +260,14 @@ class DateTimeOperator(object):
         hour = int(hour)
         minute = int(minute)
         second = int(second)
+        utc_offset = timedelta(
+            hours=time_point.time_zone.hours,
+            minutes=time_point.time_zone.minutes)
+        tzinfo = None
+        if abs(utc_offset) < timedelta(days=1):  # N.B. datetime's limit
+            tzinfo = timezone(utc_offset)
         date_time = datetime(
-            year, month, day, hour, minute, second, microsecond)
+            year, month, day, hour, minute, second, microsecond, tzinfo)
         return date_time.strftime(print_format)
 
     def get_datetime_strptime(self, time_point_str, parse_format):
